@@ -291,6 +291,23 @@ def F15_C04_cache_slot_below_slotted_base():
         return "frozen dict cache_hash class below a slotted cache_hash class: hash() raises AttributeError"
 
 
+def F16_C10_dict_subclass_of_slotted_loses_fields():
+    @attr.s(slots=True)
+    class S:
+        a = attr.ib()
+
+    @attr.s
+    class D(S):
+        b = attr.ib()
+
+    d = copy.copy(D(1, 2))
+    try:
+        if (d.a, d.b) != (1, 2):
+            return "copy lost or changed a field"
+    except AttributeError:
+        return "copy.copy of a dict attrs subclass of a slotted attrs class lost the subclass's own field"
+
+
 ALL = {k: v for k, v in list(globals().items()) if k[0] in "FK" and k[1].isdigit()}
 
 if __name__ == "__main__":
